@@ -304,6 +304,39 @@ func c09Families(tier string) []explore.Family {
 			r.Violation("rule:contains:map-keys-of-other-kinds", map[string]any{"template": src, "m": `map[any]any{1:"x", true:"y", 2.5:"z"}`}, "TFTFTF", o.String())
 		}
 	}})
+	// every operator YIELDS a boolean, also where the value is used rather than tested: assigned and compared with
+	// true/false, as a case subject, printed - in default and strict mode (nil and x is false, not nil)
+	bvNames := []string{"n", "f", "t", "z", "e", "x", "undefined_name"}
+	bvOps := []string{"and", "or", "==", "!=", "<", ">", "<=", ">=", "contains"}
+	strictEng := liquid.NewEngine()
+	strictEng.StrictVariables()
+	fams = append(fams, explore.Family{Name: "operators-yield-booleans", Count: int64(len(bvNames) * len(bvNames) * len(bvOps)), Run: func(i int64, r *explore.Rec) {
+		rx := radix{i}
+		op, b, a := bvOps[rx.next(len(bvOps))], bvNames[rx.next(len(bvNames))], bvNames[rx.next(len(bvNames))]
+		bind := func() map[string]any { return map[string]any{"n": nil, "f": false, "t": true, "z": 0, "e": "", "x": "x"} }
+		cond := a + " " + op + " " + b
+		ref := Render(c09.eng, "{% if "+cond+" %}true{% else %}false{% endif %}", bind())
+		if ref.Err != nil || ref.Panic != nil {
+			return // (judged by the pairs family)
+		}
+		forms := []string{"{% assign v = " + cond + " %}{% if v == true %}true{% elsif v == false %}false{% else %}neither{% endif %}", "{% case " + cond + " %}{% when true %}true{% when false %}false{% else %}neither{% endcase %}",
+			"{{ " + cond + " }}", "{% assign v = " + cond + " %}{{ v }}"}
+		for _, src := range forms {
+			for _, eng := range []*liquid.Engine{c09.eng, strictEng} {
+				if eng == strictEng && (a == "undefined_name" || b == "undefined_name" || a == "n" || b == "n") && false {
+					continue
+				}
+				r.Eval()
+				r.Transition()
+				o := Render(eng, src, bind())
+				if o.Panic != nil || o.Err != nil || o.Out != ref.Out {
+					r.Violation("law:operator-yields-a-boolean:"+op, map[string]any{"template": src, "strict_variables": eng == strictEng, "n": "nil", "f": false, "t": true, "z": 0, "e": "", "x": "x"}, ref.Out, o.String())
+				}
+			}
+		}
+		r.Class("yields-boolean/" + op)
+		r.State("yields-boolean")
+	}})
 	// the same relations spelled with literals (where both operands have a literal form)
 	var lits []univ.Val
 	for _, v := range c09.u {
